@@ -11,6 +11,9 @@ import (
 
 type hookFn = func(e *Exec, fr *frame, args []Value) Value
 
+// HookFn is the exported name of the hook signature.
+type HookFn = hookFn
+
 // OpaqueV is an opaque value produced by a stub (time.Time, formatted string...).
 type OpaqueV struct {
 	Kind string
@@ -370,3 +373,29 @@ func zlibNewReaderStub(e *Exec, fr *frame, args []Value) Value {
 
 var _ = strings.HasPrefix
 var _ = fmt.Sprintf
+
+// UFColorHook replaces a func(color.Color) color.RGBA64 by four uninterpreted
+// functions of the colour's RGBA() components.
+func UFColorHook(tag string) func(e *Exec, fr *frame, args []Value) Value {
+	return func(e *Exec, fr *frame, args []Value) Value {
+		c := args[0].(IfaceV)
+		m := e.Prog.LookupMethod(c.T, nil, "RGBA")
+		if m == nil {
+			panic(errorf("UFColorHook: no RGBA method on %v", c.T))
+		}
+		saved := e.merging
+		e.merging = 0
+		comps := e.callSSA(fr, 0, m, []Value{c.V}, nil).(TupleV)
+		e.merging = saved
+		ts := make([]*Term, 4)
+		for i := range ts {
+			ts[i] = comps[i].(*Term)
+		}
+		out := make(StructV, 4)
+		for i, ch := range []string{"R", "G", "B", "A"} {
+			out[i] = e.B.App(tag+"."+ch, BV(16), ts...)
+		}
+		e.noteAssumption("per-colour function " + tag + " replaced by uninterpreted functions of the colour (wiring check; its arithmetic is C01/C02/C14's subject)")
+		return out
+	}
+}
